@@ -1,4 +1,5 @@
 import EV.Driver.Util
+import EV.Driver.MemTx
 namespace EV.Driver.C12
 open EV EV.Driver EV.Codec
 
@@ -12,6 +13,14 @@ def sizesOp : Handler
     | .panic _ => "panic"
   | _, _ => "bad-op"
 
+/-- `sizesmem m:<memtx>`: sizes of an in-memory transaction the consensus encoding cannot carry -/
+def sizesMemOp : Handler
+  | cfg, [h] =>
+    match MemTx.decodeTxArg cfg.prims h with
+    | some t => s!"ok {t.size} {t.weight} {t.vsize} {optNat t.discountWeight} {optNat t.discountVsize}"
+    | none => "bad-op"
+  | _, _ => "bad-op"
+
 def blockSizesOp : Handler
   | cfg, [h] => withHex h fun bs =>
     match Block.dec cfg.prims bs with
@@ -21,5 +30,5 @@ def blockSizesOp : Handler
     | .panic _ => "panic"
   | _, _ => "bad-op"
 
-def ops : List (String × Handler) := [("sizes", sizesOp), ("blocksizes", blockSizesOp)]
+def ops : List (String × Handler) := [("sizes", sizesOp), ("sizesmem", sizesMemOp), ("blocksizes", blockSizesOp)]
 end EV.Driver.C12
